@@ -5,6 +5,8 @@
 #include "algorithms/openmp/tbfopenmpalgorithmtsm.hpp"
 #include "kernels/rotationkernel/FRotationKernel.hpp"
 #include "kernels/unifkernel/FUnifKernel.hpp"
+#include "algorithms/periodic/tbfalgorithmperiodictoptree.hpp"
+#include "algorithms/periodic/tbfalgorithmperiodictoptreetsm.hpp"
 
 #include <complex>
 
@@ -43,11 +45,34 @@ struct CfgUnif : CfgNumBase {
     template <class PK, class Conf> static PK make(const Conf& c) { static const FInterpMatrixKernelR<Real> mk; return PK(Inner(c, &mk)); }
 };
 
+// the rotation kernel with the periodic ordering (its near field shifts positions across the periodic boundary)
+struct CfgRotPeriodic : CfgCommon {
+    using Real = double;
+    using Space = TbfDefaultSpaceIndexTypePeriodic<double>;
+    static constexpr long NbData = 4;
+    static constexpr bool periodic = true;
+    static constexpr bool canRebuild = true;
+    static constexpr bool hasCounters = false;
+    using Rhs = double;
+    static constexpr long NbRhs = 4;
+    static constexpr int P = 4;
+    static constexpr long VectorSize = ((P + 2) * (P + 1)) / 2;
+    using Inner = FRotationKernel<Real, P, Space>;
+    using Mult = std::array<std::complex<Real>, VectorSize>;
+    using Loc = std::array<std::complex<Real>, VectorSize>;
+    template <class PK> using TopAlgo = TbfAlgorithmPeriodicTopTree<Real, PK, Mult, Loc, Space>;
+    template <class PK> using TopAlgoTsm = TbfAlgorithmPeriodicTopTreeTsm<Real, PK, Mult, Loc, Space>;
+};
+
 #define REG(key, Cfg, Ex) static WorldRegistrar reg_##Cfg##_##Ex(key, [](const Scenario& s) { return std::unique_ptr<IWorld>(new World<Cfg, Ex>(s)); })
 REG("morton/rot/seq", CfgRot, EX_SEQ);
 REG("morton/rot/omp", CfgRot, EX_OMP);
 REG("morton/rot/seqtsm", CfgRot, EX_SEQ_TSM);
 REG("morton/rot/omptsm", CfgRot, EX_OMP_TSM);
+REG("periodic/rot/seq", CfgRotPeriodic, EX_SEQ);
+REG("periodic/rot/omp", CfgRotPeriodic, EX_OMP);
+REG("periodic/rot/seqtsm", CfgRotPeriodic, EX_SEQ_TSM);
+REG("periodic/rot/omptsm", CfgRotPeriodic, EX_OMP_TSM);
 REG("morton/unif/seq", CfgUnif, EX_SEQ);
 REG("morton/unif/omp", CfgUnif, EX_OMP);
 
